@@ -386,4 +386,303 @@ theorem rn53_sub_iff {q s nb : Nat} (hq : 2 ^ 52 ≤ q) (hq' : q < 2 ^ 53) (hlt 
         generalize 2 ^ t = H at *
         omega
 
+/-! ## `addEq` on finite operands -/
+
+theorem normal_le_maxFin {q s : Nat} (hq' : q < 2 ^ 53) (hs : s ≤ 2045) : q * 2 ^ s ≤ maxFin := by
+  unfold maxFin
+  exact Nat.mul_le_mul (by omega) (Nat.pow_le_pow_right (by decide) hs)
+
+theorem lim_lt (q s : Nat) (opp : Bool) : lim q s opp < 2 ^ s := by
+  have hP := two_pow_pos s
+  unfold lim
+  split_ifs
+  · exact Nat.pow_lt_pow_right (by decide) (by omega)
+  · exact hP
+  · exact Nat.pow_lt_pow_right (by decide) (by omega)
+  · exact hP
+
+theorem rn53_small {x : Nat} (h : x < 2 ^ 53) : rn53 x = x := by
+  have := rn53_mul_two_pow (m := x) (t := 0) h
+  simpa using this
+
+theorem rn53_pos {x : Nat} (h : 0 < x) : 0 < rn53 x := by
+  by_cases hs : x < 2 ^ 53
+  · rw [rn53_small hs]; exact h
+  · have := rn53_ge (q := 2 ^ 52) (s := 0) (x := x) (by omega) (by omega) (by omega)
+    omega
+
+theorem eq_pack_zero (t s : Bool) {m : Nat} (hm : 0 < m) : F64.eq (pack t m) (fin s 0) = false := by
+  unfold pack
+  by_cases h : m > maxFin
+  · rw [if_pos h, eq_inf_fin]
+  · rw [if_neg h, eq_fin_fin]
+    apply decide_eq_false
+    cases s <;> cases t <;> simp [toInt] <;> omega
+
+/-- (B) for a normal `a = ±q·2^s` and a finite `b = ±nb` -/
+theorem addEq_normal_fin (sa sb : Bool) {q s nb : Nat} (hq : 2 ^ 52 ≤ q) (hq' : q < 2 ^ 53)
+    (hs : s ≤ 2045) :
+    F64.addEq (fin sa (q * 2 ^ s)) (fin sb nb) = true ↔ Spec q s nb (sa != sb) := by
+  have hmax := normal_le_maxFin hq' hs
+  have hn := normal_ge (s := s) hq
+  have hP := two_pow_pos s
+  have hPn : 2 ^ s ≤ q * 2 ^ s := Nat.le_mul_of_pos_left _ (by omega)
+  unfold F64.addEq
+  by_cases hss : sa = sb
+  · subst hss
+    rw [add_fin_same sa _ _ (by omega), eq_pack_same _ _ _ hmax, decide_eq_true_eq]
+    have : (sa != sa) = false := by cases sa <;> rfl
+    rw [this]
+    exact rn53_add_iff hq hq'
+  · have hopp : (sa != sb) = true := by cases sa <;> cases sb <;> first | rfl | exact absurd rfl hss
+    rw [hopp]
+    rcases Nat.lt_trichotomy nb (q * 2 ^ s) with hlt | heq | hgt
+    · rw [add_fin_opp_gt sa sb hss hlt, eq_pack_same _ _ _ hmax, decide_eq_true_eq]
+      exact rn53_sub_iff hq hq' hlt
+    · have hL : F64.eq (F64.add (fin sa (q * 2 ^ s)) (fin sb nb)) (fin sa (q * 2 ^ s)) = false := by
+        rw [heq, add_fin_opp_eq sa sb hss, eq_fin_fin]
+        apply decide_eq_false
+        cases sa <;> simp [toInt] <;> omega
+      have hR : ¬ Spec q s nb true := by
+        have := lim_lt q s true
+        unfold Spec; omega
+      rw [hL]
+      exact ⟨fun h => absurd h (by decide), fun h => absurd h hR⟩
+    · have hL : F64.eq (F64.add (fin sa (q * 2 ^ s)) (fin sb nb)) (fin sa (q * 2 ^ s)) = false := by
+        rw [add_fin_opp_lt sa sb hss hgt]
+        exact eq_pack_opp sa sb hss _ _ (by omega)
+      have hR : ¬ Spec q s nb true := by
+        have := lim_lt q s true
+        unfold Spec; omega
+      rw [hL]
+      exact ⟨fun h => absurd h (by decide), fun h => absurd h hR⟩
+
+/-- zero or subnormal `a`: the sum is exact (or larger than any subnormal), so `a ⊕ b == a` forces `b = ±0` -/
+theorem addEq_small_fin (sa sb : Bool) {na nb : Nat} (h : na < 2 ^ 52) (hmax : na ≤ maxFin) :
+    F64.addEq (fin sa na) (fin sb nb) = true ↔ nb = 0 := by
+  unfold F64.addEq
+  by_cases hnb : nb = 0
+  · subst hnb
+    simp only [iff_true]
+    by_cases hna : na = 0
+    · subst hna
+      rw [add_fin_zero_zero, eq_fin_fin]
+      apply decide_eq_true
+      cases sa <;> cases sb <;> rfl
+    · by_cases hss : sa = sb
+      · subst hss
+        rw [add_fin_same sa _ _ (by omega), eq_pack_same _ _ _ hmax, decide_eq_true_eq]
+        exact rn53_small (by omega)
+      · rw [add_fin_opp_gt sa sb hss (by omega), eq_pack_same _ _ _ hmax, decide_eq_true_eq]
+        exact rn53_small (by omega)
+  · have hL : F64.eq (F64.add (fin sa na) (fin sb nb)) (fin sa na) = false := by
+      by_cases hss : sa = sb
+      · subst hss
+        rw [add_fin_same sa _ _ (by omega), eq_pack_same _ _ _ hmax]
+        apply decide_eq_false
+        by_cases hsm : na + nb < 2 ^ 53
+        · rw [rn53_small hsm]; omega
+        · have := rn53_ge (q := 2 ^ 53) (s := 0) (x := na + nb) (by omega) (by omega) (by omega)
+          omega
+      · rcases Nat.lt_trichotomy nb na with hlt | heq | hgt
+        · rw [add_fin_opp_gt sa sb hss hlt, eq_pack_same _ _ _ hmax]
+          apply decide_eq_false
+          rw [rn53_small (by omega)]; omega
+        · rw [heq, add_fin_opp_eq sa sb hss, eq_fin_fin]
+          apply decide_eq_false
+          cases sa <;> simp [toInt] <;> omega
+        · rw [add_fin_opp_lt sa sb hss hgt]
+          by_cases hna : na = 0
+          · subst hna
+            exact eq_pack_zero _ _ (rn53_pos (by omega))
+          · exact eq_pack_opp sa sb hss _ _ (by omega)
+    rw [hL]
+    exact ⟨fun h => absurd h (by decide), fun h => absurd h hnb⟩
+
+theorem addEq_fin_nan (sa : Bool) (na : Nat) : F64.addEq (fin sa na) nan = false := rfl
+theorem addEq_fin_inf (sa t : Bool) (na : Nat) : F64.addEq (fin sa na) (inf t) = false := by
+  show F64.eq (inf t) (fin sa na) = false
+  exact eq_inf_fin _ _ _
+
+/-! ## the theorem -/
+
+/-- Property C07.  For all doubles `a b` (all 2^128 bit patterns, NaNs identified):
+`no_overlap(a, b)` holds exactly when `a` is finite and the IEEE sum `a ⊕ b` compares equal to `a`. -/
+theorem no_overlap_iff (a b : F64) (ha : a.WF) (hb : b.WF) :
+    base.no_overlap a b = true ↔ (a.is_finite = true ∧ F64.addEq a b = true) := by
+  cases a with
+  | nan => rw [no_overlap_nan]; simp [is_finite]
+  | inf t => rw [no_overlap_inf]; simp [is_finite]
+  | fin sa na =>
+    obtain ⟨hrep, hmax⟩ := ha
+    simp only [is_finite, true_and]
+    by_cases hsmall : na < 2 ^ 52
+    · rw [no_overlap_small sa hsmall]
+      cases b with
+      | nan => rw [eq_zero_nan, addEq_fin_nan]
+      | inf t => rw [eq_zero_inf, addEq_fin_inf]
+      | fin sb nb => rw [eq_zero_fin, addEq_small_fin sa sb hsmall hmax, decide_eq_true_eq]
+    · obtain ⟨q, s, rfl, hq, hq', hs⟩ := wf_normal_decomp (by omega) hrep hmax
+      cases b with
+      | nan => rw [no_overlap_normal_nan sa hq hq' hs, addEq_fin_nan]
+      | inf t => rw [no_overlap_normal_inf sa t hq hq' hs, addEq_fin_inf]
+      | fin sb nb =>
+        rw [no_overlap_normal_fin sa sb hq hq' hs, addEq_normal_fin sa sb hq hq' hs]
+
+/-! ## panic freedom: the `i16` subtraction `biased_exponent - offset` cannot overflow -/
+
+theorem inRange_i16_sub (s : Nat) (hs : s ≤ 2045) (off : I16) (hoff : off.v = 1076 ∨ off.v = 1077) :
+    IntN.inRange ((⟨((s + 1 : Nat) : Int)⟩ : I16) -. off) = true := by
+  show (decide (IntN.minV true 16 ≤ ((s + 1 : Nat) : Int) - off.v) &&
+    decide (((s + 1 : Nat) : Int) - off.v ≤ IntN.maxV true 16)) = true
+  have h1 : IntN.minV true 16 = -32768 := by decide
+  have h2 : IntN.maxV true 16 = 32767 := by decide
+  rw [h1, h2, Bool.and_eq_true, decide_eq_true_eq, decide_eq_true_eq]
+  rcases hoff with h | h <;> rw [h] <;> omega
+
+theorem no_overlap_pf (a b : F64) (ha : a.WF) (_hb : b.WF) : base.no_overlap.pf a b = true := by
+  cases a with
+  | nan => rfl
+  | inf t => rfl
+  | fin sa na =>
+    obtain ⟨hrep, hmax⟩ := ha
+    by_cases hsmall : na < 2 ^ 52
+    · unfold base.no_overlap.pf
+      have hc : F64.classify (fin sa na) = (if na = 0 then FpCategory.Zero else .Subnormal) := by
+        show (if na = 0 then FpCategory.Zero else if na < 2 ^ 52 then .Subnormal else .Normal) = _
+        rw [if_pos hsmall]
+      rw [hc]
+      by_cases h0 : na = 0
+      · rw [if_pos h0]
+      · rw [if_neg h0]
+    · obtain ⟨q, s, rfl, hq, hq', hs⟩ := wf_normal_decomp (by omega) hrep hmax
+      unfold base.no_overlap.pf
+      rw [classify_normal sa (normal_ge hq)]
+      simp only [biased_exponent_normal sa hq hq' hs, mantissa_zero_normal sa hq hq' hs, copysign_ne]
+      by_cases hb0 : (b ==. (f64lit 0)) = true
+      · rw [if_pos hb0]
+      · rw [if_neg hb0]
+        apply inRange_i16_sub s hs
+        by_cases hc : (decide (q = 2 ^ 52) && (sa != b.is_sign_negative)) = true
+        · rw [if_pos hc]; right; rfl
+        · rw [if_neg hc]; left; rfl
+
+/-! ## corollaries: `is_valid`, `TryFrom`, round trips -/
+
+theorem is_valid_iff (t : TwoFloat) (ht : t.WF) : TwoFloat.is_valid t = true ↔ t.Valid := by
+  unfold TwoFloat.is_valid TwoFloat.Valid
+  rw [Bool.and_eq_true, Bool.and_eq_true, no_overlap_iff t.hi t.lo ht.1 ht.2]
+  constructor
+  · rintro ⟨⟨h1, h2⟩, _, h3⟩; exact ⟨h1, h2, h3⟩
+  · rintro ⟨h1, h2, h3⟩; exact ⟨⟨h1, h2⟩, h1, h3⟩
+
+theorem is_valid_pf (t : TwoFloat) (ht : t.WF) : TwoFloat.is_valid.pf t = true := by
+  unfold TwoFloat.is_valid.pf
+  split
+  · exact no_overlap_pf _ _ ht.1 ht.2
+  · rfl
+
+/-- if `a` is finite and `a ⊕ b == a` then `b` is finite as well -/
+theorem addEq_finite (a b : F64) (ha : a.is_finite = true) (h : F64.addEq a b = true) :
+    b.is_finite = true := by
+  cases a with
+  | nan => exact absurd ha (by simp [is_finite])
+  | inf t => exact absurd ha (by simp [is_finite])
+  | fin sa na =>
+    cases b with
+    | nan => rw [addEq_fin_nan] at h; exact absurd h (by decide)
+    | inf t => rw [addEq_fin_inf] at h; exact absurd h (by decide)
+    | fin sb nb => rfl
+
+theorem try_from_tuple_eq (a b : F64) :
+    convert.impl_TryFrom_tup_f64_f64_for_TwoFloat.try_from (a, b) =
+      if base.no_overlap a b = true then Except.ok ⟨a, b⟩ else Except.error TwoFloatError.ConversionError := rfl
+
+theorem try_from_arr_eq (a b : F64) :
+    convert.impl_TryFrom_arr2_f64_for_TwoFloat.try_from ⟨a, b⟩ =
+      if base.no_overlap a b = true then Except.ok ⟨a, b⟩ else Except.error TwoFloatError.ConversionError := rfl
+
+theorem ite_ok_iff {c : Prop} [Decidable c] (x t : TwoFloat) (e : TwoFloatError) :
+    (if c then (Except.ok x : RResult TwoFloat) else Except.error e) = Except.ok t ↔ (c ∧ t = x) := by
+  by_cases h : c
+  · rw [if_pos h]
+    constructor
+    · intro hh; injection hh with hh; exact ⟨h, hh.symm⟩
+    · rintro ⟨_, rfl⟩; rfl
+  · rw [if_neg h]
+    constructor
+    · intro hh; exact absurd hh (by simp)
+    · rintro ⟨hc, _⟩; exact absurd hc h
+
+theorem ite_err_iff {c : Prop} [Decidable c] (x : TwoFloat) (e e' : TwoFloatError) :
+    (if c then (Except.ok x : RResult TwoFloat) else Except.error e) = Except.error e' ↔ (¬ c ∧ e' = e) := by
+  by_cases h : c
+  · rw [if_pos h]
+    constructor
+    · intro hh; exact absurd hh (by simp)
+    · rintro ⟨hc, _⟩; exact absurd h hc
+  · rw [if_neg h]
+    constructor
+    · intro hh; injection hh with hh; exact ⟨h, hh.symm⟩
+    · rintro ⟨_, rfl⟩; rfl
+
+theorem try_from_tuple_ok_iff (a b : F64) (ha : a.WF) (hb : b.WF) (t : TwoFloat) :
+    convert.impl_TryFrom_tup_f64_f64_for_TwoFloat.try_from (a, b) = Except.ok t ↔
+      ((a.is_finite = true ∧ F64.addEq a b = true) ∧ t = ⟨a, b⟩) := by
+  rw [try_from_tuple_eq, ite_ok_iff, no_overlap_iff a b ha hb]
+
+theorem try_from_tuple_err_iff (a b : F64) (ha : a.WF) (hb : b.WF) (e : TwoFloatError) :
+    convert.impl_TryFrom_tup_f64_f64_for_TwoFloat.try_from (a, b) = Except.error e ↔
+      (¬ (a.is_finite = true ∧ F64.addEq a b = true) ∧ e = TwoFloatError.ConversionError) := by
+  rw [try_from_tuple_eq, ite_err_iff, no_overlap_iff a b ha hb]
+
+theorem try_from_arr_ok_iff (a b : F64) (ha : a.WF) (hb : b.WF) (t : TwoFloat) :
+    convert.impl_TryFrom_arr2_f64_for_TwoFloat.try_from ⟨a, b⟩ = Except.ok t ↔
+      ((a.is_finite = true ∧ F64.addEq a b = true) ∧ t = ⟨a, b⟩) := by
+  rw [try_from_arr_eq, ite_ok_iff, no_overlap_iff a b ha hb]
+
+theorem try_from_arr_err_iff (a b : F64) (ha : a.WF) (hb : b.WF) (e : TwoFloatError) :
+    convert.impl_TryFrom_arr2_f64_for_TwoFloat.try_from ⟨a, b⟩ = Except.error e ↔
+      (¬ (a.is_finite = true ∧ F64.addEq a b = true) ∧ e = TwoFloatError.ConversionError) := by
+  rw [try_from_arr_eq, ite_err_iff, no_overlap_iff a b ha hb]
+
+/-- a successful conversion yields a valid `TwoFloat` -/
+theorem try_from_tuple_valid (a b : F64) (ha : a.WF) (hb : b.WF) (t : TwoFloat)
+    (h : convert.impl_TryFrom_tup_f64_f64_for_TwoFloat.try_from (a, b) = Except.ok t) : t.Valid := by
+  obtain ⟨⟨h1, h2⟩, rfl⟩ := (try_from_tuple_ok_iff a b ha hb t).1 h
+  exact ⟨h1, addEq_finite a b h1 h2, h2⟩
+
+theorem try_from_arr_valid (a b : F64) (ha : a.WF) (hb : b.WF) (t : TwoFloat)
+    (h : convert.impl_TryFrom_arr2_f64_for_TwoFloat.try_from ⟨a, b⟩ = Except.ok t) : t.Valid := by
+  obtain ⟨⟨h1, h2⟩, rfl⟩ := (try_from_arr_ok_iff a b ha hb t).1 h
+  exact ⟨h1, addEq_finite a b h1 h2, h2⟩
+
+/-- `TwoFloat → (f64, f64) → TwoFloat` succeeds and is the identity on valid values -/
+theorem tuple_round_trip (t : TwoFloat) (ht : t.WF) (hv : t.Valid) :
+    convert.impl_TryFrom_tup_f64_f64_for_TwoFloat.try_from
+      (convert.impl_From_TwoFloat_for_tup_f64_f64.from t) = Except.ok t := by
+  show convert.impl_TryFrom_tup_f64_f64_for_TwoFloat.try_from (t.hi, t.lo) = Except.ok t
+  exact (try_from_tuple_ok_iff t.hi t.lo ht.1 ht.2 t).2 ⟨⟨hv.1, hv.2.2⟩, rfl⟩
+
+theorem arr_round_trip (t : TwoFloat) (ht : t.WF) (hv : t.Valid) :
+    convert.impl_TryFrom_arr2_f64_for_TwoFloat.try_from
+      (convert.impl_From_TwoFloat_for_arr2_f64.from t) = Except.ok t := by
+  show convert.impl_TryFrom_arr2_f64_for_TwoFloat.try_from ⟨t.hi, t.lo⟩ = Except.ok t
+  exact (try_from_arr_ok_iff t.hi t.lo ht.1 ht.2 t).2 ⟨⟨hv.1, hv.2.2⟩, rfl⟩
+
+/-- `(f64, f64) → TwoFloat → (f64, f64)` returns the same two words whenever the conversion succeeds -/
+theorem tuple_round_trip_back (a b : F64) (t : TwoFloat)
+    (h : convert.impl_TryFrom_tup_f64_f64_for_TwoFloat.try_from (a, b) = Except.ok t) :
+    convert.impl_From_TwoFloat_for_tup_f64_f64.from t = (a, b) := by
+  rw [try_from_tuple_eq, ite_ok_iff] at h
+  obtain ⟨_, rfl⟩ := h
+  rfl
+
+theorem arr_round_trip_back (a b : F64) (t : TwoFloat)
+    (h : convert.impl_TryFrom_arr2_f64_for_TwoFloat.try_from ⟨a, b⟩ = Except.ok t) :
+    convert.impl_From_TwoFloat_for_arr2_f64.from t = ⟨a, b⟩ := by
+  rw [try_from_arr_eq, ite_ok_iff] at h
+  obtain ⟨_, rfl⟩ := h
+  rfl
+
 end F64.NoOverlap
